@@ -35,6 +35,9 @@ CLAIMED = {
   text="PARTIAL. Proved in Coq: evaluation (SEval.eval_file) is a function of rules, document and oracles - the model has no hash-order, clock or history parameter; `test` reports list rules in the order of first appearance in the evaluation record; output blocks rendered from a hash container are the same up to permutation for any two iteration orders, and a reporter that sorts its keys prints the same sequence. Tied to the code by inventories regenerated from the source on every run (every function that iterates a HashMap/HashSet, every process-wide static) against a reviewed classification saying which sites feed structured output (none since the fixes), which only console output, which sort first. NOT proved: that serde_json/serde_yaml/quick_xml render a value to the same bytes each time, and the absence of other nondeterminism in library code - these are searched for by the repeated-run differential the property describes (5 fresh processes per (rules, data, mode) over 16 command/mode combinations incl. test, parse-tree, rulegen; run_checks 5 times in one process interleaved with other evaluations), which is testing, not proof.",
   note="tie = tools/gv/inventory.py vs /verif/inventory/{hash_iter,static}.json + repeated runs. Three genuine defects found by the search were repaired in /repo (0a447c0 test report order, aebbc50 rulegen order, the console by_resources fix) together with the error-text key order.",
   technique="machine-checked proof in Coq (ordering lemmas over the model) + source inventories tying the model's absence of hash-order parameters to the code + repeated-run differential as search"),
+ 'C09': dict(
+  text="Coq theorems over Report.v, a model of simplified_json_from_root, report_all_failed_clauses_for_rules (all its match arms) and FileReport::combine: with distinct rule names every evaluated rule is in exactly one of compliant / not_applicable / not_compliant according to its status; the file status is FAIL iff not_compliant is non-empty, PASS iff it is empty and compliant is not, else SKIP (given the file record carries the fold of its rules, which is C02_file); combining the reports of several rules files is the union and its status again follows the FAIL>PASS>SKIP rule; every check listed under a rule is the image of a ClauseValueCheck record inside that rule's own subtree whose status is FAIL and carries its custom message; a FAIL rule is listed even with no displayable check; nothing is listed under a PASS or SKIP rule. Tie: the JSON the implementation prints (run_checks non-verbose) is compared inside Coq with Report.simplified applied to the record tree of the same evaluation (status, both name sets, the whole not_compliant tree with node kinds and custom messages). Monitor: the statement evaluated on the implementation's outputs alone, plus union-of-reports for 2..3 rules files through the CLI.",
+  note="tie = hook eval_dump + run_checks JSON + CLI runs. Context strings and error-message wording are not modelled. The correspondence found that run_checks truncated reports over 8 KiB (fixed in /repo, recorded under C07)."),
 }
 
 NOT_CLAIMED = {}
